@@ -69,6 +69,7 @@ func c08r1(c *Ctx) {
 		x, _ := entryContext(r.Entry)
 		seen := map[string]int{}
 		n := 0
+		var changeChains [][]callLevel // the stores that perform the function's own change (append of the URIs / replacement of the attributes)
 		for _, s := range c.P.EffectSites(r.Entry, "metastore", isStore) {
 			st := s.In.(*ssa.Store)
 			fa := st.Addr.(*ssa.FieldAddr)
@@ -108,9 +109,50 @@ func c08r1(c *Ctx) {
 			}
 			if ok {
 				c.OK(rule, fnn, construct, pos, why)
+				if (s.Name == "MetaData.URIs" && r.Key == "ESDTNFTAddURI") || (s.Name == "MetaData.Attributes" && r.Key == "ESDTNFTUpdateAttributes") {
+					var ch []callLevel
+					var at ssa.Instruction = st
+					for y := s.Env; y != nil; y = y.Parent {
+						ch = append([]callLevel{{y, at}}, ch...)
+						if y.Parent == nil || y.Call == nil {
+							break
+						}
+						at = y.Call.(ssa.Instruction)
+					}
+					changeChains = append(changeChains, ch)
+				}
 			} else {
 				c.FailX(Oblig{Rule: rule, Func: fnn, Construct: construct, Pos: pos, Kind: "violation",
 					Detail: "metadata does not travel intact: " + why, Expected: "only create / add-URI (append the given URIs) / update-attributes (replace by the given attributes) / freeze toggles write these fields"})
+			}
+		}
+		// the change is not optional: a call that succeeds has appended the given URIs / replaced the attributes by the given
+		// ones, whatever they are (empty attributes are attributes) — at every call level, given what is known of the arguments
+		if r.Key == "ESDTNFTAddURI" || r.Key == "ESDTNFTUpdateAttributes" {
+			what := map[string]string{"ESDTNFTAddURI": "the given URIs are appended", "ESDTNFTUpdateAttributes": "the attributes are replaced by the given ones"}[r.Key]
+			construct := r.Key + ": " + what + " on every successful path"
+			ee := c.P.Env(r.Entry)
+			var assume []Fact
+			for _, ch := range changeChains {
+				if len(ch) > 0 {
+					for _, f := range ee.LinFactsAt(ch[0].call, nil) {
+						if f.Lin && strings.Contains(f.Key(), "len(") {
+							assume = append(assume, f)
+						}
+					}
+					break
+				}
+			}
+			switch {
+			case len(changeChains) == 0:
+				c.FailX(Oblig{Rule: rule, Func: FuncName(r.Entry), Construct: construct, Pos: c.P.Pos(r.Entry.Pos()), Kind: "violation",
+					Detail: "nothing below " + r.Key + " performs the change the function exists for"})
+			case passesOneOf(ee, 0, changeChains, assume):
+				c.OK(rule, FuncName(r.Entry), construct, c.P.Pos(r.Entry.Pos()), "the store lies on every path to a successful return, at every call level")
+			default:
+				c.FailX(Oblig{Rule: rule, Func: FuncName(r.Entry), Construct: construct, Pos: c.P.Pos(r.Entry.Pos()), Kind: "violation",
+					Detail:   r.Key + " can succeed without having made its change: the store is skipped on some path (a test on the new value — its length, its difference from the old one — decides whether it is written), so a caller that passes such a value is told success while the entry keeps the old metadata",
+					Expected: what + " unconditionally"})
 			}
 		}
 		if n == 0 {
